@@ -78,6 +78,14 @@ def render(res, n):
         src = h + ".dc32 " + "-" * n + "1\n"
     elif res == "nest_unary_paren":
         src = h + ".dc32 1 + " + "-(" * n + "1" + ")" * n + "\n"
+    elif res == "macro_arg_escapes":
+        # n escaped pairs inside a quoted macro argument (2n bytes of a 1024 byte buffer)
+        src = h + ".macro esc_q(a)\n.db a\n.endm\nesc_q(\"" + "\\\\" * n + "\")\n"
+    elif res == "ident_dots":
+        # CPUs whose names may contain dots (cpu_list[].strings_have_dots) take another path in tokens_get()
+        src = ".xtensa\n" + "a" * (n // 2) + "." * (n - n // 2) + "\n"
+    elif res == "ident_slashes":
+        src = ".sh4\nbt" + "/" * n + "s\n"
     elif res == "nest_ifexpr_not":
         src = h + ".if " + "!" * n + "1\n.db 1\n.endif\n"
     elif res == "nest_ifexpr_paren":
